@@ -246,7 +246,7 @@ def run(tier, seed):
                     tgt = pb if pb is not None else b
                     rep.check(rid, not F.reaches_avoiding(0, tgt, cut), "successful return crosses collapse_path or 'path == NULL'", "%s:%s" % (rd.file, rd.blocks[tgt].term.line()),
                               "a header can be returned with a path that never went through collapse_path", function=rd.cname, obj="sanitiser-last")
-                rep.check(rid, len(guard_edges) == 1, "the only way around the call is 'path == NULL'", cp.where(), "%d guard edges" % len(guard_edges), function=rd.cname, obj="guard")
+                rep.check(rid, len(guard_edges) <= 1, "the only way around the call (if any) is 'path == NULL'", cp.where(), "%d guard edges" % len(guard_edges), function=rd.cname, obj="guard")
                 # nothing after it writes the path field or path bytes
                 rid2 = rep.rule("R3b", "after collapse_path nothing that can write the path field or the bytes of a path runs", 3)
                 after = blocks_reachable_from(rd, rd.blocks[cp.block.id].succs)
